@@ -4,6 +4,7 @@ Reference = unsegmented delivery on a fresh flow.  For every segmentation: nothi
 contains the trigger byte (grammar model), exactly that segment carries the (canonically equal) reply; an unanswered
 stream stays unanswered under every cut."""
 import itertools
+import struct
 import time
 
 from .. import core, gen, pkt, canon
@@ -13,8 +14,8 @@ from ..protos import http, rpc
 
 PROP = "C11"
 RULE = ("request streams from the HTTP grammar (all verb families, targets, 0-3 headers, CRLF/LF) and ONC-RPC calls over TCP "
-        "(record mark, credentials/verifiers of 0..40 bytes, optional arguments), plus single-fault negatives; for each stream ALL "
-        "one-cut and ALL two-cut compositions, random k-cuts (k <= 8) and byte-wise delivery, each on a fresh flow (new client address and port; the contacted endpoint is fixed per stream because portmapper replies advertise it). Per segment the reply is compared with the model: bare ACK (flags = ACK, no "
+        "(record mark, credentials/verifiers of 0..40 bytes, optional arguments; also bodies whose lengths are not multiples of 4, with the trigger calibrated from the byte-wise run), single-fault negatives and foreign-preface negatives; for each stream ALL "
+        "one-cut and ALL two-cut compositions, random k-cuts (k <= 8) and byte-wise delivery, each on a fresh flow, the sessions of a stream accumulating in one connection table (thousands of control blocks) and interleaved round-robin within batches of 150 (new client address and port; the contacted endpoint is fixed per stream because portmapper replies advertise it). Per segment the reply is compared with the model: bare ACK (flags = ACK, no "
         "payload, seq = peer ack, ack = peer seq + len) before the trigger byte, the canonical reply of the unsegmented run in "
         "the segment containing the trigger byte. The trigger byte comes from the grammar (HTTP: LF of the empty line; RPC: last "
         "verifier byte) and is cross-checked against the byte-wise run. Non-trivial = segmentations with a cut strictly before "
@@ -46,6 +47,15 @@ def gen_streams(rng, n_http, n_rpc, maxlen):
         s = rpc.record(bytes(m))
         if len(s) <= maxlen:
             out.append(("rpc", s, 4 + c["trigger"], True, None))
+    # calls whose credential / verifier lengths are NOT multiples of 4 (how such a call is framed is the responder's
+    # business, but it has to be framed the same way under every segmentation): the trigger byte is calibrated from the
+    # byte-wise run instead of the grammar
+    for _ in range(max(1, n_rpc // 2)):
+        cl, vl = rng.choice([(1, 0), (6, 0), (0, 3), (5, 7), (10, 2), (2, 0)])
+        m = struct.pack("!IIIIII", (rng.choice([0x01, 0x7A]) << 24) | rng.getrandbits(24), 0, 2, rpc.PMAP, rng.choice([2, 3, 4]), rng.choice([0, 3, 4])) + \
+            struct.pack("!II", 1, cl) + bytes(rng.getrandbits(8) for _x in range(cl)) + struct.pack("!II", rng.choice([0, 1]), vl) + \
+            bytes(rng.getrandbits(8) for _x in range(vl)) + bytes(rng.choice([0, 4, 8]))
+        out.append(("rpc_odd", rpc.record(m), None, True, None))
     return out
 
 
@@ -101,20 +111,39 @@ def run_sessions(ctx, cfg, stream, plans):
             isn = rng.getrandbits(32)
             flows.append((e, sp, dp, isn))
             syns.append(e.tcp(sp, dp, isn, 0, SYN))
-        ctx.case(reset=True, record=False)
+        # the table is reset once per stream only: the sessions of a stream pile up (thousands of control blocks), and
+        # within a chunk the sessions are interleaved round-robin (first segments of all sessions, then the second ones, ...):
+        # other flows in between must not matter
+        ctx.case(reset=(base == 0), record=False)
         rs = ctx.send_many(syns)
-        frames, owner = [], []
+        per_sess = []
         for k, (cuts, (e, sp, dp, isn), r) in enumerate(zip(chunk, flows, rs)):
             a = pkt.parse(r.reply) if r.kind == "R" else {}
             if a.get("flags") != (SYN | ACK):
                 ctx.inconclusive += 1
+                per_sess.append([])
                 continue
             ack = (a["seq"] + 1) & 0xFFFFFFFF
             seq = (isn + 1) & 0xFFFFFFFF
+            segs = []
             for seg in cut(stream, cuts):
-                frames.append(e.tcp(sp, dp, seq, ack, PSH | ACK, seg))
-                owner.append((k, seg, seq, ack))
+                segs.append((k, seg, seq, ack, e.tcp(sp, dp, seq, ack, PSH | ACK, seg)))
                 seq = (seq + len(seg)) & 0xFFFFFFFF
+            per_sess.append(segs)
+        frames, owner = [], []
+        depth = max([len(x) for x in per_sess] + [0])
+        rr = rng.random() < 0.7
+        if rr:
+            for j in range(depth):
+                for segs in per_sess:
+                    if j < len(segs):
+                        owner.append(segs[j][:4])
+                        frames.append(segs[j][4])
+        else:
+            for segs in per_sess:
+                for x in segs:
+                    owner.append(x[:4])
+                    frames.append(x[4])
         rs = ctx.send_many(frames)
         per = [[] for _ in chunk]
         for (k, seg, seq, ack), f, r in zip(owner, frames, rs):
@@ -156,7 +185,7 @@ def judge(ctx, kind, stream, trig, ref_payload, cuts, segs, cfg):
                 key, what = "arith", "segment #%d: reply seq/ack %s/%s, expected %d/%d" % (i, a.get("seq"), a.get("ack"), ack, (seq + len(seg)) & 0xFFFFFFFF)
         if key:
             first = cuts[0] if cuts else len(stream)
-            siglen = 28 if kind == "rpc" else stream.find(b"/") + 1
+            siglen = 28 if kind.startswith("rpc") else stream.find(b"/") + 1
             ctx.violation("%s:%s:%s" % (kind, key, "cut_in_signature" if kind != "http_neg" and first < siglen else "cut_after_signature"),
                           "%s; stream of %d bytes cut at %s" % (what, len(stream), cuts), observed=(r.reply.hex() if r.reply else r.kind)[:300],
                           expected="bare ACK before the trigger byte, the reply exactly at it", frames=[x[3] for x in segs[:i + 1]],
@@ -189,7 +218,7 @@ def shard(ctx, budget_s, n_http, n_rpc, maxlen):
         r0 = ref[0][0][4]
         a0 = pkt.parse(r0.reply) if r0.kind == "R" else {}
         ref_payload = canon.mask_app(a0.get("data")) if a0.get("data") else None
-        if kind != "http_neg" and ref_payload is None:
+        if kind not in ("http_neg", "rpc_odd") and ref_payload is None:
             ctx.violation("%s:unsegmented_unanswered" % kind, "complete valid request not answered when delivered in one segment", observed=r0.kind,
                           frames=[ref[0][0][3]], extra={"stream": stream.hex()})
             continue
@@ -198,7 +227,16 @@ def shard(ctx, budget_s, n_http, n_rpc, maxlen):
             continue
         # cross-check the grammar's trigger byte against the byte-wise run
         bw = [segs for cuts, segs in res if cuts == list(range(1, len(stream)))]
-        if bw and ref_payload is not None:
+        if kind == "rpc_odd":
+            if ref_payload is None or not bw:
+                ctx.stats["rpc_odd_unanswered_unsegmented"] += 1
+                continue
+            trig = next((i for i, x in enumerate(bw[0]) if x[4].kind == "R" and pkt.parse(x[4].reply).get("data")), None)
+            if trig is None:
+                ctx.violation("rpc_odd:bytewise_unanswered", "stream answered in one segment but never when delivered byte by byte", observed="no reply",
+                              frames=[x[3] for x in bw[0][:60]], extra={"stream": stream.hex(), "cuts": list(range(1, len(stream)))})
+                continue
+        if bw and ref_payload is not None and kind != "rpc_odd":
             firstrep = next((i for i, x in enumerate(bw[0]) if x[4].kind == "R" and pkt.parse(x[4].reply).get("data")), None)
             ctx.extra.setdefault("trigger_crosscheck", {"agree": 0, "differ": 0})
             ctx.extra["trigger_crosscheck"]["agree" if firstrep == trig else "differ"] += 1
